@@ -2011,6 +2011,11 @@ class Scene:
         sk = rng.choice(secs)
         if cur is not None and rng.random() < 0.5 and self.siblings(cur):
             sk = rng.choice(self.siblings(cur))
+        self.link_metadata(ok, sk)
+
+    def link_metadata(self, ok, sk):
+        """`owner.metadata = section`, kept on the oracle's books (the slot leads to that section from now on)"""
+        label = "slot metadata of %s/%s/%s" % ok
         odesc, owner = self.get(ok)
         sdesc, sec = self.get(sk)
         self.log.append(["set metadata", list(ok), "via " + odesc, list(sk), "via " + sdesc])
@@ -2151,17 +2156,21 @@ class Scene:
             return self.primary(key)
         return getattr(b, STORE_OF[key[1]])[key[2]]
 
-    def offer(self, item, kind, bn, what, many=3, b=None):
+    def offer(self, item, kind, bn, what, many=3, b=None, sinks=None):
         """`item` is a handle that does NOT stand for a member of block `bn` (`what` says why): every link list of
-        its kind, positions / extents and feature data of that block must refuse it and stay as they are"""
+        its kind, positions / extents and feature data of that block must refuse it and stay as they are.  With
+        `sinks` given, the item is offered to exactly those (lists / links that take ANOTHER kind than the item's)"""
         rng = self.rng
-        sinks = self.sinks(bn, kind)
+        if sinks is None:
+            sinks = rng.sample(self.sinks(bn, kind), min(len(self.sinks(bn, kind)), many))
         if b is not None and rng.random() < 0.25:
             b = None
-        for sort, where in rng.sample(sinks, min(len(sinks), many)):
+        item_kind = kind
+        for sort, where in sinks:
             self.evals += 1
             if sort == "list":
                 L = where
+                kind = next((k for ok_, on_, cn_, k in self.LIST_TABLE if (ok_, on_, cn_) == L[1:]), item_kind)
                 cont = getattr(self.owner_via(b, L[:3]), L[3])
                 before = list(cont)
                 mode = rng.choice(["append", "append", "extend", "extend with a member"])
@@ -2395,6 +2404,158 @@ class Scene:
         del self.f.blocks[nb.name]
         self.offer(h, kind, bn, "the kept handle of %s %r of a deleted block" % (kind, name))
         self.check_lists("after offering a handle from a deleted block")
+
+    # -- entities of the wrong kind that hang below / are linked from the block's own structure ------------
+    def section_family(self, m, why, below, out):
+        """a section some entity of the block links to as metadata, and what hangs below it in the file: its
+        subsections, the section it links to, its properties - none of them is an array / tag / multi-tag / source"""
+        seen = []
+        todo = [(m, why)]
+        while todo and len(seen) < 12:
+            sec, d = todo.pop(0)
+            if any(same_obj(sec, o) for o in seen):
+                continue
+            seen.append(sec)
+            out.append(("section", sec, "Section %r = %s" % (sec.name, d), below))
+            try:        # the same section fetched through the file's section tree (another handle, another parent)
+                for o in self.f.find_sections(filtr=lambda x, i=sec.id: x.id == i):
+                    if same_obj(o, sec):
+                        out.append(("section", o, "Section %r fetched from the file's section tree = %s" % (sec.name, d), below))
+                        break
+            except Exception:
+                pass
+            for p in sec.props:
+                out.append(("property", p, "Property %r of %s" % (p.name, d), below))
+            for sub in sec.sections:
+                todo.append((sub, "subsection %r of %s" % (sub.name, d)))
+            try:
+                lk = sec.link
+            except Exception:
+                lk = None
+            if lk is not None:
+                todo.append((lk, "the section linked (Section.link) from %s" % d))
+
+    def linked_below(self, bn):
+        """(kind, handle, description, kind of the block member it hangs from) for what is reachable from the members
+        of block `bn` through the links the file holds: metadata sections (+ subsections, linked sections, properties),
+        sources / references / positions / extents / feature data of the entities, arrays and frames linked by
+        dimensions, the features themselves, the block and its groups"""
+        b = self.f.blocks[bn]
+        out = [("block", b, "the block %r itself" % bn, "block")]
+        m = b.metadata
+        if m is not None:
+            self.section_family(m, "metadata of block %s" % bn, "block", out)
+
+        def entity(e, kind, d):
+            out.append((kind, e, d, kind))
+            try:
+                m = e.metadata
+            except Exception:
+                m = None
+            if m is not None:
+                self.section_family(m, "metadata of " + d, kind, out)
+            if kind != "source" and hasattr(e, "sources"):
+                for s in e.sources:
+                    out.append(("source", s, "Source %r reached as %s.sources" % (s.name, d), kind))
+
+        for s in b.find_sources():
+            entity(s, "source", "source %r of block %s" % (s.name, bn))
+        for da in b.data_arrays:
+            d = "array %r of block %s" % (da.name, bn)
+            entity(da, "data_array", d)
+            for i, dim in enumerate(da.dimensions):
+                try:
+                    lk = dim.dimension_link if getattr(dim, "has_link", False) else None
+                except Exception:
+                    lk = None
+                if lk is not None:      # (the link object of a dimension: it has an id and lies below the array)
+                    out.append(("dimension_link", lk, "the DimensionLink of dimension %d of %s" % (i + 1, d), "data_array"))
+        for fr_ in b.data_frames:
+            entity(fr_, "data_frame", "data frame %r of block %s" % (fr_.name, bn))
+        for g in b.groups:
+            d = "group %r of block %s" % (g.name, bn)
+            entity(g, "group", d)
+            for cname, k in (("data_arrays", "data_array"), ("tags", "tag"), ("multi_tags", "multi_tag")):
+                for e in getattr(g, cname):
+                    out.append((k, e, "%s %r reached as %s.%s" % (k, e.name, d, cname), "group"))
+        for cname, kind in (("tags", "tag"), ("multi_tags", "multi_tag")):
+            for t in getattr(b, cname):
+                d = "%s %r of block %s" % (kind, t.name, bn)
+                entity(t, kind, d)
+                for e in t.references:
+                    out.append(("data_array", e, "array %r reached as %s.references" % (e.name, d), kind))
+                for i, ft in enumerate(t.features):
+                    out.append(("feature", ft, "feature %d of %s" % (i, d), kind))
+                    try:
+                        x = ft.data
+                    except Exception:
+                        continue
+                    k = "data_frame" if isinstance(x, nixio.DataFrame) else "data_array"
+                    out.append((k, x, "%s %r reached as data of feature %d of %s" % (k, x.name, i, d), kind))
+                if kind == "multi_tag":
+                    for role in ("positions", "extents"):
+                        try:
+                            x = getattr(t, role)
+                        except Exception:
+                            x = None
+                        if x is not None:
+                            out.append(("data_array", x, "array %r reached as %s.%s" % (x.name, d, role), kind))
+        return out
+
+    def all_sinks(self, bn):
+        """every link list / role link / feature data link of the block with the kind(s) it takes"""
+        out = []
+        for okind, oname, cname, k in self.LIST_TABLE:
+            if (bn, okind, oname) in self.paths:
+                out.append((("list", (bn, okind, oname, cname)), (k,)))
+        for key in self.paths:
+            if key[0] == bn and key[1] == "multi_tag":
+                out += [(("role", (bn, key[2], r)), ("data_array",)) for r in ("positions", "extents")]
+        out += [(("featdata", fk), ("data_array", "data_frame")) for fk in self.featdata if fk[0] == bn]
+        out.append((("create_feature", (bn, "tag", "tg")), ("data_array", "data_frame")))
+        return out
+
+    def do_wrong_kind(self):
+        """entities of the WRONG kind that a membership test could mistake for members because they hang below the
+        structure it looks at (the metadata section of one of the block's sources lies below the block's `sources`
+        group in the file, an array lies below the tag that refers to it ...): every link list, positions / extents and
+        feature data take only their own kind, refuse anything else and stay as they are"""
+        rng = self.rng
+        bn = rng.choice(self.bnames)
+        secs = [k for k in self.paths if k[1] == "section"]
+        if secs and rng.random() < 0.7:          # something of the block gets metadata
+            kind = rng.choice(["source", "source", "source", "data_array", "tag", "multi_tag", "group"])
+            owners = [k for k in self.paths if k[0] == bn and k[1] == kind]
+            if owners:
+                self.link_metadata(rng.choice(owners), rng.choice(secs))
+        if len(secs) > 1 and rng.random() < 0.3:          # a section links to another section
+            a, c = rng.sample(secs, 2)
+            sa, sc_ = self.primary(a), self.primary(c)
+            if not same_obj(sa, sc_):
+                self.log.append(["Section.link", list(a), "->", list(c)])
+                sa.link = sc_
+        if secs and rng.random() < 0.3:
+            sk = rng.choice(secs)
+            sec = self.primary(sk)
+            if "p" not in [p.name for p in sec.props]:
+                self.log.append(["create_property", list(sk), "p"])
+                sec.create_property("p", [1.0])
+        cands = self.linked_below(bn)
+        sinks = self.all_sinks(bn)
+        b = self.f.blocks[bn]
+        for _ in range(4):
+            sink, takes = rng.choice(sinks)
+            skind = takes[0]
+            pool = [c for c in cands if c[0] not in takes]
+            if rng.random() < 0.6:              # what hangs below the members of the kind this sink takes
+                pool = [c for c in pool if c[3] == skind] or pool
+            if rng.random() < 0.6:              # kinds no list takes at all
+                pool = [c for c in pool if c[0] in ("section", "property", "feature", "block", "group", "dimension_link")] or pool
+            if not pool:
+                continue
+            kind, item, desc, _below = rng.choice(pool)
+            self.offer(item, kind, bn, "%s (a %s, not a %s)" % (desc, kind, " / ".join(takes)), b=b, sinks=[sink])
+        self.check_lists("after offering entities of the wrong kind")
 
     # -- dimensions --------------------------------------------------------------------
     def dims_setup(self):
@@ -3020,7 +3181,8 @@ def _scene_run(ctx, rng, steps, tag):
         acts = [(sc.do_append, 0.26), (sc.do_role, 0.1), (sc.do_feature, 0.07), (sc.do_metadata, 0.07),
                 (sc.do_mutate, 0.16), (sc.do_write, 0.1), (sc.do_dim, 0.22), (sc.reopen, 0.04),
                 (sc.do_calib, 0.05), (sc.do_feature_data, 0.06), (sc.do_frame_write, 0.03), (sc.do_frame_unit, 0.06),
-                (sc.do_stale, 0.05), (sc.do_stray, 0.04), (sc.do_deleted_block, 0.015), (sc.do_feature_frame, 0.04)]
+                (sc.do_stale, 0.05), (sc.do_stray, 0.04), (sc.do_deleted_block, 0.015), (sc.do_feature_frame, 0.04),
+                (sc.do_wrong_kind, 0.06)]
         tot = sum(w for _, w in acts)
         for _ in range(steps):
             r = rng.random() * tot
